@@ -140,6 +140,7 @@ def run_model_and_steps(chk, prop, tier, pkey=None):
                 chk.error("YkConc4 model check %s did not pass (says nothing about the code): %s" % (cfg, tlc_tail(res, 12)))
         run_steps2(chk, prop, tier, pk)
         run_steps3(chk, prop, tier, pk)
+        run_steps4(chk, prop, tier, pk)
     exe = build("stepdrv", ["stepdrv.cpp"], sessions=16)
     init = {"A": "{1, 2}", "B": "{1, 2}", "C": "{1, 2}", "D": "{1}"}
     nruns = 40 if tier == "quick" else 400
@@ -275,6 +276,61 @@ def run_steps3(chk, prop, tier, pk):
             at = int(m.group(1)) if m else 0
             chk.cov["divergences"] = chk.cov.get("divergences", 0) + 1
             log("DIVERGENCE property=%s at=step-level collapse %s event %d: %s (the code's access sequence differs from YkConc3; not a violation)" % (
+                prop, prog, at, lines[at - 1][:200] if 0 < at <= len(lines) else ""))
+
+
+STEP4 = [("put:21,get:32,get:21", 2), ("put:21,rem:2,get:32", 2), ("put:5,rem:18,get:16", 1), ("put:34,rem:2,get:34", 2), ("put:21,rem:2,get:18", 2), ("put:1,get:2,get:17", 1)]
+
+
+def run_steps4(chk, prop, tier, pk):
+    """S: border split under an existing parent / interior insert / interior shift-delete / collapse vs new root of YkConc4 on the real
+    code (fan-out 15) under random and PCT schedules; every logged access must be the enabled model step with the same value
+    (TraceConc4); LinOK, RootOpsOK and Quiescent are evaluated on every state of the accepted executions."""
+    import os, re
+    from common import tlc, tlc_tail, build, run, BUILD
+    from tracecheck import write_cfg
+    exe = build("stepdrv4", ["stepdrv4.cpp"], sessions=16)
+    nruns = 12 if tier == "quick" else 120
+    keys = "{" + ", ".join(str(i) for i in range(1, 36)) + "}"
+    for pi, (prog, full) in enumerate(STEP4[:3] if tier == "quick" else STEP4):
+        out = ""
+        bad = False
+        for sched in ("random", "pct"):
+            rc, o, err = run([exe, "prog=" + prog, "full=%d" % full, "runs=%d" % nruns, "seed=%d" % seed(), "sched=" + sched], timeout=300)
+            lines = o.splitlines()
+            if lines and '"op":"fault"' in lines[-1]:
+                chk.violation("fault", "implementation faulted in step-level split/collapse run %s: %s" % (prog, lines[-1]), chk.save_replay("fault_step4_%d.ndjson" % pi, "\n".join(lines[-30:])))
+                bad = True
+                break
+            if rc != 0 or any('"e":"abort"' in x for x in lines[-2:]):
+                if prop == "C09" and any('"e":"abort"' in x for x in lines[-2:]):
+                    chk.violation("deadlock", "step-level split/collapse run %s did not complete: %s" % (prog, lines[-1][:300]), chk.save_replay("abort_step4_%d.ndjson" % pi, "\n".join(lines[-200:])))
+                else:
+                    chk.notes.append("stepdrv4 %s did not complete: %s" % (prog, (lines[-1] if lines else err)[:200]))
+                bad = True
+                break
+            out += o if not out else "\n".join(lines[1:]) + "\n"
+        if bad:
+            continue
+        lines = out.splitlines()
+        tr = os.path.join(BUILD, "traces", "step4_%s_%d.ndjson" % (pk, pi))
+        open(tr, "w").write(out)
+        cfg = write_cfg(os.path.join(BUILD, "cfg", "tc4_%s_%d.cfg" % (pk, pi)), constants={"F": 15, "Keys": keys, "Threads": "{0, 1, 2}", "Prog": "<- ProgT",
+                        "Init1": "{2}", "Init2": "{18}", "UNLOCK_BEFORE_PARENT": "FALSE", "NO_INS_ON_INSERT": "FALSE", "NO_INS_ON_DELETE": "FALSE"},
+                        invariants=["LinOK", "RootOpsOK", "Quiescent"], constraint="Record")
+        res = tlc("TraceConc4", cfg, env={"TRACE": tr}, workers=1, timeout=600, deque=True)
+        chk.add_tlc(res, "step-level conformance of split under a parent / interior insert, shift-delete / collapse vs new root, programs %s, border %d full (%d runs, %d events)" % (prog, full, 2 * nruns, len(lines)))
+        if res.ok:
+            chk.traces += 2 * nruns
+            chk.cov["step_events_conforming"] = chk.cov.get("step_events_conforming", 0) + len(lines)
+        elif res.violated in ("LinOK", "RootOpsOK", "Quiescent"):
+            rp = chk.save_replay("step4_%d_%s.txt" % (pi, res.violated), tlc_tail(res, 60))
+            chk.violation("step-trace-" + res.violated, "%s violated on a real execution (%s) followed step by step in YkConc4" % (res.violated, prog), rp)
+        else:
+            m = re.search(r'<<"STUCK", (\d+)', res.out)
+            at = int(m.group(1)) if m else 0
+            chk.cov["divergences"] = chk.cov.get("divergences", 0) + 1
+            log("DIVERGENCE property=%s at=step-level split/collapse %s event %d: %s (the code's access sequence differs from YkConc4; not a violation)" % (
                 prop, prog, at, lines[at - 1][:200] if 0 < at <= len(lines) else ""))
 
 
